@@ -2039,5 +2039,7 @@ def dilution_fragile(c):
     return False
 
 
-register("C14", run_C14, level="translation_validation",
+register("C14", run_C14, module="Robotools.Props.C14",
+         theorems=["Robotools.C14." + t for t in ("planFrom_ok", "volumes_ok", "sources_earlier", "budget", "planFrom_none_stuck")]
+                  + ["Robotools.Dil." + t for t in ("planCol_inv", "fold_inv", "findSource_spec", "drawn_future")],
          rule="(xmin, xmax, R, C, stock, mode, vmax scalar / per-column / non-integer, min_transfer) with R 1..16, C 1..24; every returned plan checked by an independent exact checker and executed with to_worklist on both devices; the implementation's ideal targets are fed to the Lean model of the planning algorithm")
